@@ -113,7 +113,7 @@ def solve_case(s, cid, rail_rep=False, **kw):
     case = {"id": cid, "built": True, "st": project(s) if s is not None else EMPTY_ST, "args": args, "kw": {k: v for k, v in kw.items() if k not in ("tags",)}, "outcome": "ok", "exc": "", "msg": "",
             "table": {"cols": ["none"], "rows": [], "isnone": True},
             "rail": {"cols": ["none"], "rows": [], "isnone": True}, "hasrail": False, "railexc": "",
-            "has_design": False, "design": [], "haswant": False, "want": [], "hasedit": False, "edit": {"op": "", "args": {}, "pre": EMPTY_ST},
+            "has_design": False, "design": [], "haswant": False, "want": [], "wantlim": [], "hasedit": False, "edit": {"op": "", "args": {}, "pre": EMPTY_ST},
             "has_slice": False, "slice_of": {"cols": ["none"], "rows": [], "isnone": True}}
     if s is None:
         return case
@@ -152,3 +152,34 @@ def want_of(sysst):
         out.append({"name": n, "cls": c["cls"], "rail": c["rail"], "group": c["group"], "par": list(sysst["par"][n]),
                     "ct": ct, "ck": keys})
     return out
+
+
+def wantlim_of(gen):
+    """the limit dictionaries the generator handed to the constructors (C09: the limits in force are the configured ones)"""
+    out = []
+    for name, d in gen.made.items():
+        if d.get("limits"):
+            out.append({"name": name, "lims": [{"k": k, "lo": cell(v[0]), "hi": cell(v[1])} for k, v in d["limits"].items()]})
+    return out
+
+
+def move_leaf(s, rng):
+    """del_comp of a childless component followed by add_comp of an equal component below another parent (the freed node
+    index is re-used); returns a description, or None when the system has no such pair"""
+    from rebuild import desc_of
+    st = project(s)
+    comps = {c["name"]: c for c in st["comps"]}
+    haskids = {p for c in st["comps"] for p in c["par"]}
+    leaves = [n for n, c in comps.items() if c["par"] and n not in haskids and c["cls"] != "PMux"]
+    hosts = [n for n, c in comps.items() if c["cls"] not in ("PLoad", "ILoad", "RLoad")]
+    rng.shuffle(leaves)
+    for n in leaves:
+        cand = [h for h in hosts if h != n and h not in comps[n]["par"]]
+        if cand:
+            h = rng.choice(cand)
+            with warnings.catch_warnings():
+                warnings.simplefilter("ignore")
+                s.del_comp(n)
+                s.add_comp(h, comp=build(desc_of(comps[n])), group=comps[n]["group"], rail=comps[n]["rail"])
+            return "moved %s below %s" % (n, h)
+    return None
